@@ -25,6 +25,9 @@
 //!             transport pend from now on, `@unblock` lets the pending and all later writes complete
 //!             (what is written then is attributed to the last frame sent while blocked). `@failwrite`
 //!             makes the reply write of the next frame fail with BrokenPipe (Wire::fail_next_write).
+//!             A hex entry need not be one ADU: any chunk of the byte stream (half a frame, many frames) may be
+//!             given; its reply entry is everything written after it. `@reopen` (only with chunks, no other
+//!             commands): see run_reopen_case.
 //! argument `--decode min|max` (default min) sets the initial decode level: min = nothing,
 //! max = (DataValues, Payload, Data). A tracing subscriber that formats every event into a sink is
 //! installed once per process so that the Display / Loggable code really runs.
@@ -51,7 +54,7 @@ use rodbus::server::{
     Authorization, AuthorizationHandler, ReadOnlyAuthorizationHandler, RequestHandler, ServerHandlerMap, WriteCoils,
     WriteRegisters,
 };
-use rodbus::verif::{run_server_session, Framing};
+use rodbus::verif::{run_server_session, Framing, ServerSession};
 use rodbus::server::ServerHandle;
 use rodbus::{AddressRange, AppDecodeLevel, DecodeLevel, ExceptionCode, FrameDecodeLevel, Indexed, PhysDecodeLevel, UnitId};
 
@@ -399,6 +402,70 @@ fn decode_level(name: &str) -> DecodeLevel {
     }
 }
 
+/// ONE SessionTask (one FramedReader, one handler map) run over several consecutive transports, as
+/// serial/server.rs::RtuServerTask does across port re-opens. Tokens: hex chunks, and `@reopen`: the
+/// current port session is ended (end of stream, unless it has already ended with an error) and the
+/// same session is run over a fresh transport.
+/// output end: the ends of the port sessions joined by `+` (`open` for one still running)
+async fn run_reopen_case(
+    map: ServerHandlerMap<Handler>,
+    auth: Option<(Arc<dyn AuthorizationHandler>, String)>,
+    framing: Framing,
+    decode: DecodeLevel,
+    tokens: Vec<String>,
+    log: Log,
+) -> String {
+    let mut session = ServerSession::new(map, auth, framing, decode);
+    let mut replies: Vec<String> = Vec::new();
+    let mut ends: Vec<String> = Vec::new();
+    let mut groups: Vec<Vec<String>> = vec![Vec::new()];
+    for t in tokens {
+        if t == "@reopen" {
+            groups.push(Vec::new());
+        } else {
+            groups.last_mut().unwrap().push(t);
+        }
+    }
+    let n = groups.len();
+    for (gi, group) in groups.into_iter().enumerate() {
+        let wire = Wire::new();
+        let fut = session.run(Box::new(wire.clone()));
+        tokio::pin!(fut);
+        let mut ended: Option<String> = None;
+        let name = |e: rodbus::RequestError| format!("{e:?}").split('(').next().unwrap_or("").to_string();
+        for t in group {
+            if ended.is_some() {
+                break;
+            }
+            assert!(!t.starts_with('@'), "only chunks and @reopen in a re-open script");
+            wire.push(&unhex(&t));
+            tokio::select! {
+                biased;
+                e = &mut fut => { ended = Some(name(e)); }
+                _ = settle() => {}
+            }
+            let out = wire.take_out().concat();
+            replies.push(if out.is_empty() { "-".to_string() } else { hex(&out) });
+        }
+        if ended.is_none() && gi + 1 < n {
+            wire.set_eof();
+            tokio::select! {
+                biased;
+                e = &mut fut => { ended = Some(name(e)); }
+                _ = settle() => {}
+            }
+        }
+        ends.push(ended.unwrap_or_else(|| "open".to_string()));
+    }
+    let log = compress(&log.lock().unwrap());
+    format!(
+        "{}|{}|{}",
+        if replies.is_empty() { "-".to_string() } else { replies.join(",") },
+        if log.is_empty() { "-".to_string() } else { log.join(";") },
+        ends.join("+")
+    )
+}
+
 fn run_case(line: &str, decode: DecodeLevel) -> String {
     let f: Vec<&str> = line.trim().split('|').collect();
     assert!(f.len() == 4, "case needs 4 fields");
@@ -425,6 +492,9 @@ fn run_case(line: &str, decode: DecodeLevel) -> String {
     let frames: Vec<String> = if f[3] == "-" { Vec::new() } else { f[3].split(',').map(|x| x.to_string()).collect() };
 
     let rt = tokio::runtime::Builder::new_current_thread().enable_time().start_paused(true).build().unwrap();
+    if frames.iter().any(|x| x == "@reopen") {
+        return rt.block_on(run_reopen_case(map, auth, framing, decode, frames, log));
+    }
     let (replies, end) = rt.block_on(async move {
         let wire = Wire::new();
         let (tx, rx) = tokio::sync::mpsc::channel(64);
